@@ -178,19 +178,54 @@ def cargo_build_numlib():
 # ---------------------------------------------------------------------------------------
 # line protocol
 # ---------------------------------------------------------------------------------------
-def _run_chunk(args):
-    exe, lines, timeout = args
+def _run_once(exe, lines, timeout):
+    """answers (complete lines only) and how the child ended: None = normally, "TIMEOUT", or "DIED(rc=..)" """
     data = ("\n".join(lines) + "\n").encode()
     try:
         p = subprocess.run(exe, input=data, stdout=subprocess.PIPE, stderr=subprocess.PIPE, timeout=timeout)
-        raw, pad = p.stdout, "DIED(rc=%d)" % p.returncode
+        raw, how = p.stdout, (None if p.returncode == 0 else "DIED(rc=%d)" % p.returncode)
     except subprocess.TimeoutExpired as e:
-        raw, pad = (e.stdout or b""), "TIMEOUT"
+        raw, how = (e.stdout or b""), "TIMEOUT"
     out = raw.decode("utf-8", "replace").split("\n")
     out.pop()          # what follows the last newline: empty, or an answer cut off in the middle
-    if len(out) < len(lines):
-        out += [pad] * (len(lines) - len(out))
-    return out[:len(lines)]
+    return out[:len(lines)], how
+
+
+T_START = time.time()
+HANGS = [0]     # operations of the implementation that did not return even on their own, in this process
+
+
+def _run_chunk(args):
+    """one child for the whole chunk. If it stops answering at some operation, that operation is run once more on its
+    own: an answer then counts (the machine was loaded); for the implementation's harness no answer within a minute is
+    the judged answer `HANG` / `CRASHED(..)` (the real code does not return on this input), for the model driver it
+    stays the unjudged `TIMEOUT` / `DIED` (the model is only slow). The operations after it go to a fresh child.
+    Once three operations have hung, later time-outs are not investigated any more (short limits, rest unjudged):
+    a change that makes an operation endless must not make the check endless."""
+    exe, lines, timeout = args
+    is_impl = (exe and exe[0] == HARNESS_BIN)
+    res = []; rest = list(lines); restarts = 0
+    def hurry():
+        # three operations have hung, or a quick-tier run is past five minutes (operations that got very slow)
+        return HANGS[0] >= 3 or (os.environ.get("HY_EFFECTIVE_TIER") == "quick" and time.time() - T_START > 300)
+    while rest:
+        out, how = _run_once(exe, rest, min(timeout, 30) if hurry() else timeout)
+        res += out
+        if len(out) >= len(rest): break
+        k = len(out)
+        if hurry() and how == "TIMEOUT":
+            res += ["TIMEOUT"] * (len(rest) - k); break
+        solo, how1 = _run_once(exe, [rest[k]], 60)
+        if solo: res.append(solo[0])
+        elif is_impl:
+            res.append("HANG" if how1 == "TIMEOUT" else "CRASHED(%s)" % how1)
+            if how1 == "TIMEOUT": HANGS[0] += 1
+        else: res.append(how or how1 or "DIED(rc=?)")
+        rest = rest[k + 1:]
+        restarts += 1
+        if restarts > 3 and rest:
+            res += [how or "TIMEOUT"] * len(rest); break
+    return res[:len(lines)]
 
 
 def run_lines(exe, lines, timeout=600, chunks=None):
